@@ -22,6 +22,15 @@ def harnesses(tier):
             scenario_harness("flat3-window-jobs-added-later", Profile(
                 templates=("F3", "N12"), window="always", perm="id", crit_job=False, construct="add",
                 window_via="free", edges="none"), o, required_notes=req),
+            scenario_harness("flat4-window-instantaneous-bodies-with-yields", Profile(
+                templates=("F4",), window="always", dur=0, pre=2, perm="id", top="pure", crit_job=False,
+                edges="fanout"), o, required_notes=req),
+            scenario_harness("flat4-window-three-entries-and-a-fresh-successor", Profile(
+                templates=("F4",), window="always", dur=0, pre=2, perm="two", top="pure", crit_job=False,
+                edges="firstlast"), o, required_notes=req),
+            scenario_harness("nested-window-in-windowed-parent", Profile(
+                templates=("S12", "N12"), window="always", perm="id", crit_job=False, edges="none"), o,
+                required_notes=req),
             scenario_harness("flat3-window-forever", Profile(
                 templates=("F3",), window="always", forever="free", perm="id", top="pure", crit_job=False),
                 o, required_notes=req),
